@@ -201,7 +201,7 @@ def jobs(tier):
         _job("S2-ctl-c2-d3-t2", lambda ch: s2.CtlGen(ch, 2, 3, 2), 3,
              {"space": "S2-ctl", "compounds<=": 2, "depth<=": 3, "terminators<=": 2, "tests": "external calls"}, 1800),
         _job("S2-ctl-c2-argtests", lambda ch: s2.CtlGen(ch, 2, 2, 1, arg_tests=True), 3,
-             {"space": "S2-ctl", "compounds<=": 2, "terminators<=": 1, "tests": "external calls, comparisons, not, attribute, subscript"}, 1800),
+             {"space": "S2-ctl", "compounds<=": 2, "terminators<=": 1, "tests": "external calls, comparisons, not, attribute, subscript, unbound name"}, 1800, required=False),
         _job("S2-ctl-c3-d3-t2", lambda ch: s2.CtlGen(ch, 3, 3, 2), 4,
              {"space": "S2-ctl", "compounds<=": 3, "depth<=": 3, "terminators<=": 2, "tests": "external calls"}, 1500, required=False),
         _job("S2-expr-d1", lambda ch: s2.ExprGen(ch, 1, rich_leaves=True), 2,
